@@ -245,10 +245,19 @@ package olareg
 //@   ensures [read-only] mutations() == old(mutations())
 //@   ensures [locks-restored] forall m: Ref :: (heldAt(m) <==> old(heldAt(m)))
 //@   ensures [timers] forall t: *time.Timer :: allocated(t) && t != old(s.referrerCache.timer) ==> (t.armed <==> old(t.armed))
+//@   -- a filtered answer announces the filter, whichever path produced the bytes (fresh, or a page from the cache)
+//@   assert [filter-announced]{C07} before "w.Write(": filterAT != "" ==> header(w, "OCI-Filters-Applied") == "artifactType"
 
 //@ -- the repository grammar has no empty, "." or ".." elements and no leading separator (every element starts and ends
 //@ -- with [a-z0-9]): a name that matches is a relative path that cannot climb (C16)
 //@ axiom repo-grammar-is-safe: forall s: string :: re_rePath(s) ==> safeRel(s)
+
+//@ -- the constructor: the store it builds gets a configuration that went through SetDefaults (precondition of
+//@ -- NewDir/NewMem, proved); that it establishes ServeHTTP's precondition is NOT proved: the callee write sets are per
+//@ -- field, so building the store object forgets the fields of s.conf (a frame for freshly allocated objects is missing)
+//@ func New(conf config.Config) (s *Server)
+//@   props C19 C15
+//@   ensures [built] s != nil
 
 //@ pred methodMutates(m) := m == "PUT" || m == "POST" || m == "PATCH" || m == "DELETE"
 
